@@ -88,6 +88,10 @@ def run_recording(orders, reqs):
             (mig.up if d == 'U' else mig.down)(n)
         except Boom:
             raised = True
+        except Exception as e:
+            # nothing was injected here: the runner itself failed
+            outs.append('X %s' % type(e).__name__)
+            continue
         outs.append('%s last=%d schema=%s trace=%s' % ('R' if raised else 'C', ms.last_applied(),
                                                        ','.join(map(str, sorted(ms.schema))), ','.join(ms.trace[t0:])))
     return outs
@@ -97,6 +101,8 @@ def direct_oracle(orders, reqs, outs):
     """property restated on the implementation's own trace: gating and order"""
     last = 0
     for ((d, n), f), o in zip(reqs, outs):
+        if o.startswith('X '):
+            return 'the request %s%s raised %s although nothing was injected' % (d, '' if n is None else n, o[2:])
         parts = dict(p.split('=') for p in o.split(' ')[1:])
         tr = [t for t in parts['trace'].split(',') if t]
         nums = [int(t[1:]) for t in tr]
@@ -227,10 +233,13 @@ def _sql_and_mongo(ctx, out, rng):
                     raise Boom('save')
                 SQLMigrationSet.save_applied_number = boom2
             raised = False
+            crashed = None
             try:
                 (Migrator(ms).up if d == 'U' else Migrator(ms).down)(n)
             except Boom:
                 raised = True
+            except Exception as e:
+                crashed = type(e).__name__
             finally:
                 sqlmig.Migration0To1x3x0.up, sqlmig.Migration0To1x3x0.down = orig_up, orig_down
                 SQLMigrationSet.save_applied_number = orig_save
@@ -247,9 +256,10 @@ def _sql_and_mongo(ctx, out, rng):
             has_tables = 'vakt_policies' in inspect(engine).get_table_names()
             out.evaluations += 1
             out.count('sql-set')
-            if raised != exp_raised or recorded != version or has_tables != tables:
+            if crashed or raised != exp_raised or recorded != version or has_tables != tables:
                 f = Failure('oracle', {'set': 'sql', 'history': hist},
-                            {'raised': raised, 'recorded_version': recorded, 'policy_tables_exist': has_tables}, None,
+                            {'raised': raised, 'runner_raised': crashed, 'recorded_version': recorded,
+                             'policy_tables_exist': has_tables}, None,
                             'expected raised=%s version=%s tables=%s (gating against the version recorded in the database)'
                             % (exp_raised, version, tables), 'Vakt.C18.gated_and_ordered / resume / idempotent')
                 f.signature = 'oracle:sql'
